@@ -28,4 +28,10 @@ PROPS = {
         "need_tags": ["sel/exh1", "sel/exh2", "sel/exh3", "sel/slice", "sel/index", "sel/rnd", "sel/ident"],
         "trusted": ["strings are sliced by code point; the model groups a lead byte with its continuation bytes, exact on valid UTF-8 only", "basicnode map lookup = first entry with that key (decoders reject duplicate keys)"],
     },
+    "C11": {
+        "engines": ["policy"],
+        "rule": "policies built with the public constructors from the harness's AST: every leaf statement (5 comparison operators x 15 selectors x 21 values; like x 9 patterns) x 66 data values of every kind incl. NaN/Inf/-0/boundary ints (product thinned 1/4 in the quick tier); seeded random statements nested to depth 4; metamorphic groups through the implementation: every permutation of 2-4 and/or operands, every permutation of 2-4 list elements under all/any, each operand/element dropped (antitonicity), concatenated policies; observable = (Match, PartialMatch)",
+        "need_tags": ["pol/leaf", "pol/like", "pol/rnd", "pol/perm-ops", "pol/perm-elems", "pol/anti-and", "pol/anti-all", "pol/cat", "pol/corpus"],
+        "trusted": ["datamodel.DeepEqual (go-ipld-prime) is modelled by deep_equal on the basicnode kinds", "integers beyond int64 (uint64 nodes) are outside this engine; see C09"],
+    },
 }
